@@ -61,6 +61,10 @@ CHECKS = {
             "exhaustive enumeration of prior contents of the caller's configuration memory (256 uniform fills + every structure element x 4 poison patterns), compared with the zero-prefilled run",
             "Field-by-field equality of the returned structure (padding excluded, table completeness checked at run time), set_parameter acceptance and identical packets of a 5-picture encode for every prior content.",
             "one element poisoned at a time or uniform fills, not arbitrary combinations; 64x64 clip, logical_processors 1", "4/C13"),
+    "C14": ("api_h (asan) + BFS", "model_checking",
+            "explicit-state breadth-first search over API call histories; transition function = the real API replayed in a fresh ASan process; NULL-argument calls in every protocol state followed by normal completion of the session",
+            "All protocol states reachable with <= 2 pictures (encoder) / <= 2 temporal units (decoder) are explored; in each, every NULL-handle / NULL-buffer call and every protocol-legal call is executed; no crash, error code for NULL arguments, rejected configuration leaves the handle usable, no blocking except the owed blocking get_packet.",
+            "out-of-order calls with valid pointers are not explored (not demanded); free-running library threads inside each call", "4/C14"),
 }
 
 NOT_YET = {}
